@@ -173,8 +173,10 @@ type obs07 struct {
 	Mode   string    `json:"mode"`
 	A      ANode     `json:"A"`
 	Op     Op        `json:"op"`
-	Deq12  bool      `json:"deq12"`
+	Deq12  bool      `json:"deq12"` // source against the edited COPY
 	Deq21  bool      `json:"deq21"`
+	Deq12F bool      `json:"deq12f"` // source against the edited tree built afresh
+	Deq21F bool      `json:"deq21f"`
 	SelfEq bool      `json:"selfeq"`
 	Copy   copyFacts `json:"copy"`
 	Panic  string    `json:"panic"`
@@ -251,6 +253,11 @@ func exec07(c Case) interface{} {
 		}
 		o.Deq12 = gedcom.DeepEqual(src, t2)
 		o.Deq21 = gedcom.DeepEqual(t2, src)
+		// the same edit on the abstract tree, built from scratch (no history on any node)
+		t3 := build(applyOpA(a, c.Op))
+		src3 := build(a)
+		o.Deq12F = gedcom.DeepEqual(src3, t3)
+		o.Deq21F = gedcom.DeepEqual(t3, src3)
 		// independence, on a second copy so that the comparison above is not disturbed
 		cp2 := gedcom.DeepCopy(src, nil)
 		cp2text := cp2.GEDCOMString(0)
@@ -262,6 +269,32 @@ func exec07(c Case) interface{} {
 		o.Copy.Indep2 = cp3snap.same(snap(cp3)) && cp3.GEDCOMString(0) == cp2text
 	})
 	return o
+}
+
+// applyOpA performs the edit on the abstract tree (NodeHeapOps!ApplyOp).
+func applyOpA(a ANode, op Op) ANode {
+	t := clone(a)
+	if op.K == "copy" {
+		return t
+	}
+	x := atA(&t, op.Path)
+	switch op.K {
+	case "perm":
+		nu := make([]ANode, len(x.Kids))
+		for i, j := range op.Perm {
+			nu[i] = x.Kids[j-1]
+		}
+		x.Kids = nu
+	case "ins":
+		nu := append([]ANode{}, x.Kids[:op.Pos-1]...)
+		nu = append(nu, clone(*op.Node))
+		x.Kids = append(nu, x.Kids[op.Pos-1:]...)
+	case "del":
+		x.Kids = append(append([]ANode{}, x.Kids[:op.Pos-1]...), x.Kids[op.Pos:]...)
+	case "chg":
+		x.Kids[op.Pos-1] = clone(*op.Node)
+	}
+	return t
 }
 
 // ------------------------------------------------------------------- C08
@@ -590,18 +623,62 @@ func Gen(w io.Writer, mode string, seed int64, n int) error {
 	enc := json.NewEncoder(bw)
 	a := bigAlphabet()
 	root := mk("HEAD", "", "", `{"k":"plain"}`)
+	// kind-focused subtrees: the rules that look at children (RESI places, EVEN children, dates)
+	focused := func() ANode {
+		var n ANode
+		switch rng.Intn(4) {
+		case 0: // dateless RESI with several places
+			n = mk("RESI", "", "", `{"k":"plain"}`)
+			for i, m := 0, 2+rng.Intn(2); i < m; i++ {
+				n.Kids = append(n.Kids, mk("PLAC", []string{"Paris", "Rome", "Oslo"}[rng.Intn(3)], "", `{"k":"plain"}`))
+			}
+			if rng.Intn(3) == 0 {
+				n.Kids = append(n.Kids, mk("NOTE", "n", "", `{"k":"plain"}`))
+			}
+		case 1: // dateless EVEN with children
+			n = mk("EVEN", []string{"", "x"}[rng.Intn(2)], "", `{"k":"plain"}`)
+			for i, m := 0, 1+rng.Intn(3); i < m; i++ {
+				n.Kids = append(n.Kids, randTree(rng, a, 2, 2))
+			}
+		case 2: // RESI / EVEN with dates
+			n = mk([]string{"RESI", "EVEN"}[rng.Intn(2)], "", "", `{"k":"plain"}`)
+			n.Kids = append(n.Kids, dateNode([]string{"Exact", "About"}[rng.Intn(2)], 1900+50*rng.Intn(2)))
+			n.Kids = append(n.Kids, mk("PLAC", []string{"Paris", "Rome"}[rng.Intn(2)], "", `{"k":"plain"}`))
+			if rng.Intn(2) == 0 {
+				n.Kids = append(n.Kids, dateNode("Exact", 1950))
+			}
+		default: // an event with a date and a place
+			n = mk([]string{"BIRT", "DEAT", "BURI", "BAPM"}[rng.Intn(4)], "", "", `{"k":"plain"}`)
+			n.Kids = append(n.Kids, dateNode("Exact", 1900+50*rng.Intn(2)), mk("PLAC", "Rome", "", `{"k":"plain"}`))
+		}
+		return n
+	}
 	tree := func() ANode {
 		t := root
 		d, k := 2+rng.Intn(3), 2+rng.Intn(4)
-		if rng.Intn(10) == 0 {
-			k = 70 // wider than a machine word
-		}
 		t.Kids = []ANode{}
+		wide := rng.Intn(10) == 0
+		if wide { // wider than one, sometimes two, machine words; distinct fillers first
+			for i, m := 0, []int{62, 63, 64, 65, 70, 127, 130}[rng.Intn(7)]; i < m; i++ {
+				t.Kids = append(t.Kids, mk("NOTE", fmt.Sprintf("f%d", i), "", `{"k":"plain"}`))
+			}
+			k = 4
+		}
 		for i, m := 0, rng.Intn(k+1); i < m; i++ {
-			if len(t.Kids) > 0 && rng.Intn(5) == 0 {
+			switch {
+			case len(t.Kids) > 0 && rng.Intn(5) == 0:
 				t.Kids = append(t.Kids, t.Kids[rng.Intn(len(t.Kids))])
-			} else {
+			case rng.Intn(4) == 0:
+				t.Kids = append(t.Kids, focused())
+			default:
 				t.Kids = append(t.Kids, randTree(rng, a, d-1, 3))
+			}
+		}
+		if wide || rng.Intn(6) == 0 { // duplicates at the very end
+			dup := a.leaf[rng.Intn(len(a.leaf))]
+			dup.Kids = []ANode{}
+			for i, m := 0, 2+rng.Intn(2); i < m; i++ {
+				t.Kids = append(t.Kids, dup)
 			}
 		}
 		return t
@@ -615,7 +692,17 @@ func Gen(w io.Writer, mode string, seed int64, n int) error {
 			allPaths(t, nil, &paths)
 			op := Op{K: "copy"}
 			p := paths[rng.Intn(len(paths))]
+			for tries := 0; tries < 6 && len(atA(&t, p).Kids) < 2; tries++ { // prefer nodes that have children to work on
+				p = paths[rng.Intn(len(paths))]
+			}
 			x := atA(&t, p)
+			tailPos := func(n int) int { // positions near the end are as interesting as random ones
+				if n > 3 && rng.Intn(2) == 0 {
+					return n - rng.Intn(3)
+				}
+				return 1 + rng.Intn(n)
+			}
+			_ = tailPos
 			switch rng.Intn(5) {
 			case 1:
 				if len(x.Kids) >= 2 {
@@ -636,11 +723,11 @@ func Gen(w io.Writer, mode string, seed int64, n int) error {
 				op = Op{K: "ins", Path: p, Pos: 1 + rng.Intn(len(x.Kids)+1), Node: &e}
 			case 3:
 				if len(x.Kids) > 0 {
-					op = Op{K: "del", Path: p, Pos: 1 + rng.Intn(len(x.Kids))}
+					op = Op{K: "del", Path: p, Pos: tailPos(len(x.Kids))}
 				}
 			case 4:
 				if len(x.Kids) > 0 {
-					pos := 1 + rng.Intn(len(x.Kids))
+					pos := tailPos(len(x.Kids))
 					if len(x.Kids[pos-1].Kids) == 0 {
 						e := a.edit[rng.Intn(len(a.edit))]
 						op = Op{K: "chg", Path: p, Pos: pos, Node: &e}
